@@ -278,6 +278,77 @@ def crlf_and_config(ctx: Ctx) -> None:
         shutil.rmtree(d, ignore_errors=True)
 
 
+# documents as BYTES (what is on disk / in the pipe): encodings of line ends and of the first character that in-process
+# runs with StringIO never see
+BYTE_DOCS = {
+    "crlf": b"First   line of text\r\nsecond line.\r\n\r\nNext   paragraph here.\r\n\r\n- item\r\n- two\r\n",
+    "lone-cr": b"Old Mac\rline ends.\r\rSecond   paragraph.\r",
+    "mixed": b"Unix line\nDOS line\r\n\r\nlast   one\n",
+    "bom": "\ufeff# Title\n\nSome   text   here.\n".encode(),
+    "bom-crlf": "\ufeffText   with BOM\r\n\r\nand CRLF.\r\n".encode(),
+    "non-ascii": "Caf\u00e9   na\u00efve \u65e5\u672c\u8a9e  \u201cquoted\u201d\u00a0nbsp\n\nsecond\u2028line\n".encode(),
+    "no-final-newline": b"text   without final newline",
+}
+
+
+def byte_level(ctx: Ctx) -> None:
+    """real processes, real pipes and files: file→stdout, stdin→stdout, stdin→-o, in place, and the file API must give the
+    same BYTES, equal to the text API on the text `Path.read_text()` decodes"""
+    from flowmark import reformat_text
+    from flowmark.reformat_api import reformat_file
+    rng = ctx.rng
+    names = sorted(BYTE_DOCS)
+    modes = [[], ["--plaintext"], ["--semantic"], ["--plaintext", "--width", "30"], ["--width", "0"]]
+    picks = [(n, m) for n in names for m in modes]
+    if ctx.tier != "thorough":
+        rng.shuffle(picks)
+        picks = picks[: 14] + [(n, ["--plaintext"]) for n in ("crlf", "bom")]
+    for name, mode in picks:
+        data = BYTE_DOCS[name]
+        d = Path(tempfile.mkdtemp(prefix="c15b_", dir="/tmp"))
+        try:
+            (d / "f.md").write_bytes(data)
+            kw = dict(width=88, plaintext="--plaintext" in mode, semantic="--semantic" in mode, cleanups=False)
+            if "--width" in mode:
+                kw["width"] = int(mode[mode.index("--width") + 1])
+            want = reformat_text((d / "f.md").read_text(), kw["width"], kw["plaintext"], kw["semantic"], False, False, False).encode()
+            run = lambda args, inp=None: subprocess.run([sys.executable, "-m", "flowmark.cli", *mode, *args], cwd=d, input=inp, capture_output=True)
+            got = {}
+            got["file→stdout"] = run(["f.md"]).stdout
+            got["stdin→stdout"] = run(["-"], data).stdout
+            run(["-o", "out.md", "-"], data)
+            got["stdin→-o"] = (d / "out.md").read_bytes() if (d / "out.md").exists() else None
+            shutil.copy(d / "f.md", d / "g.md")
+            run(["--inplace", "--nobackup", "g.md"])
+            got["inplace"] = (d / "g.md").read_bytes()
+            shutil.copy(d / "f.md", d / "h.md")
+            reformat_file(str(d / "h.md"), None, inplace=True, nobackup=True, **kw)
+            got["file API"] = (d / "h.md").read_bytes()
+            ctx.count(["bytes", name, mode])
+            ctx.bump("bytes:" + name)
+            diff = {k: (None if v is None else v[:200].decode(errors="replace")) for k, v in got.items() if v != want}
+            if diff:
+                ctx.fail("BYTES: entry points disagree on a document given as bytes (line ends / BOM / non-ASCII)",
+                         {"doc": name, "bytes": repr(data), "mode": mode}, {"text API": want[:200].decode(errors="replace"), "differs": diff})
+        finally:
+            shutil.rmtree(d, ignore_errors=True)
+
+
+def replay_fixed_bytes(ctx: Ctx) -> None:
+    for fid, e in ctx.kf.items():
+        c = e.get("input") or {}
+        if c.get("kind") == "bytes":
+            d = Path(tempfile.mkdtemp(prefix="c15b_", dir="/tmp"))
+            try:
+                data = BYTE_DOCS[c["doc"]]
+                (d / "f.md").write_bytes(data)
+                a = subprocess.run([sys.executable, "-m", "flowmark.cli", *c["mode"], "f.md"], cwd=d, capture_output=True).stdout
+                b = subprocess.run([sys.executable, "-m", "flowmark.cli", *c["mode"], "-"], cwd=d, input=data, capture_output=True).stdout
+                ctx.known_replay(fid, a != b)
+            finally:
+                shutil.rmtree(d, ignore_errors=True)
+
+
 def usage_errors(ctx: Ctx) -> None:
     for args, stdin_text, what in [
         ([], "", "no input"),
@@ -329,14 +400,18 @@ def oracle(ctx: Ctx) -> None:
     usage_errors(ctx)
     several_alone(ctx)
     crlf_and_config(ctx)
+    byte_level(ctx)
+    replay_fixed_bytes(ctx)
     fresh_process_sample(ctx)
     subprocess_sample(ctx, ctx.scale(12, 120))
     ctx.rule("option product {W∈0,20,88}×2^5 switches×3 spacings×5 sinks×3 sources: pairwise-covering sample (quick) "
-             "or the full 4320 points (thorough), in-process main(); subprocess sample; usage errors")
+             "or the full 4320 points (thorough), in-process main(); subprocess sample; usage errors; byte-level documents (CRLF, lone CR, BOM, non-ASCII, no final newline) × modes through real processes (file→stdout, stdin→stdout, stdin→-o, in place, file API)")
 
 
 def run(ctx: Ctx) -> None:
-    lean_obligations(ctx, need_driver=False)
+    driver_ok = lean_obligations(ctx)
+    import routetie
+    ctx.guard("tie route", routetie.tie_route, driver_ok)
     oracle(ctx)
     ctx.assume("the formatter itself is a parameter of the plumbing theorems; argparse is modelled only through its option table")
 
